@@ -16,6 +16,7 @@ struct Pat_ {
     fields: Vec<String>,  // field names, e.g. "stdout"
     macros: Vec<String>,  // macro names, e.g. "writeln"
     idents: Vec<String>,  // plain identifier uses, e.g. "tca"
+    pats: Vec<String>,    // tuple-struct patterns by last path segment, e.g. "Err"
 }
 
 struct Scan<'a> {
@@ -24,6 +25,7 @@ struct Scan<'a> {
     fns: Vec<String>,
     macros: Vec<String>,
     closures: usize,
+    arms: Vec<String>,
     out: Vec<Value>,
 }
 
@@ -39,6 +41,7 @@ impl<'a> Scan<'a> {
             "file": self.sf.path, "line": line, "kind": kind, "what": what,
             "enclosing_fn": self.fns.join("::"), "in_macros": self.macros.clone(),
             "closure_depth": self.closures, "arg": arg, "text": norm(&text), "context": ctx,
+            "arm": self.arms.last().cloned().unwrap_or_default(),
         }));
     }
 
@@ -142,6 +145,36 @@ impl<'a, 'ast> Visit<'ast> for Scan<'a> {
         }
         visit::visit_expr_method_call(self, m);
     }
+    fn visit_local(&mut self, l: &'ast Local) {
+        // `let Ok(x) = e else { .. }` inspects the failure case
+        if let Some(init) = &l.init {
+            if init.diverge.is_some() && !self.pat.pats.is_empty() {
+                if let Pat::TupleStruct(ts) = &l.pat {
+                    let last = ts.path.segments.last().map(|s| s.ident.to_string()).unwrap_or_default();
+                    if last == "Ok" || last == "Err" {
+                        self.site("let-else", &last, l.span(), String::new(), "expr");
+                    }
+                }
+            }
+        }
+        visit::visit_local(self, l);
+    }
+    fn visit_arm(&mut self, a: &'ast Arm) {
+        let mut t = norm(self.sf.slice(self.sf.range(a.span())));
+        if t.len() > 240 {
+            t.truncate(240);
+        }
+        self.arms.push(t);
+        visit::visit_arm(self, a);
+        self.arms.pop();
+    }
+    fn visit_pat_tuple_struct(&mut self, p: &'ast PatTupleStruct) {
+        let last = p.path.segments.last().map(|s| s.ident.to_string()).unwrap_or_default();
+        if self.pat.pats.contains(&last) {
+            self.site("pattern", &last, p.span(), String::new(), "expr");
+        }
+        visit::visit_pat_tuple_struct(self, p);
+    }
     fn visit_expr_path(&mut self, p: &'ast ExprPath) {
         if p.qself.is_none() && p.path.segments.len() == 1 {
             let name = p.path.segments[0].ident.to_string();
@@ -196,6 +229,7 @@ pub fn run(root: &str, job: &Value, errors: &mut Vec<Value>) -> Value {
         fields: strs(&job["fields"]),
         macros: strs(&job["macros"]),
         idents: strs(&job["idents"]),
+        pats: strs(&job["pats"]),
     };
     let mut files: Vec<String> = vec![];
     fn walk(dir: &std::path::Path, root: &std::path::Path, out: &mut Vec<String>) {
@@ -218,7 +252,7 @@ pub fn run(root: &str, job: &Value, errors: &mut Vec<Value>) -> Value {
     for rel in files {
         match SourceFile::load(root, &rel) {
             Ok(sf) => {
-                let mut s = Scan { sf: &sf, pat: &pat, fns: vec![], macros: vec![], closures: 0, out: vec![] };
+                let mut s = Scan { sf: &sf, pat: &pat, fns: vec![], macros: vec![], closures: 0, arms: vec![], out: vec![] };
                 s.visit_file(&sf.ast);
                 sites.extend(s.out);
             }
